@@ -426,6 +426,14 @@ def _collect_code(module, files):
     return out
 
 
+def enable_without_tracing():
+    """Let a Scheduler run in a process that does not pre-empt at bytecodes: the only pre-emption points are the
+    explicit ones (simulated lock operations and whatever seam calls the harness marks with yield_point())."""
+    global _TOOL
+    if _TOOL is None:
+        _TOOL = 'explicit-yield-points-only'
+
+
 def install(module):
     """Instrument every code object defined in *module*'s source file (idempotent)."""
     global _TOOL, _FILES
